@@ -373,7 +373,8 @@ def expand(prog: 'object') -> list[str]:
         from kfv import localnames
         from kfv import normalize
         for caller in touched.values():
-            normalize._fold(caller.node)      # constants substituted for parameters: getattr(o, f'_{k}') etc. fold now
+            keep_ = {k[0] for k in localnames.table().get(caller.qualname, [])}
+            normalize._fold(caller.node, keep_)      # constants substituted for parameters: getattr(o, f'_{k}') etc. fold now
             try:
                 # the spliced code comes from functions outside the inventory: give it the inventory spelling of the
                 # caller (comparison orientation, if/else polarity, argument style) like the rest of the caller
@@ -383,8 +384,38 @@ def expand(prog: 'object') -> list[str]:
             except Exception as e:  # noqa: BLE001
                 log.append(f'{caller.short}: re-canonicalisation after expansion skipped ({type(e).__name__}: {e})')
             renumber(caller.node)
+        # helpers that are no longer referenced anywhere were absorbed by their callers: the rules see them there,
+        # not as free-standing functions full of parameters (`getattr(self, name)`)
+        names_used: dict[str, int] = {}
+        for q, f in funcs.items():
+            for n in ast.walk(f.node):
+                if q in new and n is f.node:
+                    continue
+                if isinstance(n, ast.Name) and n.id in by_name:
+                    names_used[n.id] = names_used.get(n.id, 0) + (0 if _inside(n, new, f) else 1)
+                elif isinstance(n, ast.Attribute) and n.attr in by_name:
+                    names_used[n.attr] = names_used.get(n.attr, 0) + (0 if _inside(n, new, f) else 1)
+        absorbed = [h for nm, hs in by_name.items() if not names_used.get(nm) for h in hs]
+        for h in absorbed:
+            funcs.pop(h.qualname, None)
+            prog._func_of_node.pop(id(h.node), None)  # type: ignore[attr-defined]
+            if h.cls and h.cls in prog.classes:  # type: ignore[attr-defined]
+                c = prog.classes[h.cls]  # type: ignore[attr-defined]
+                for tab in (c.methods, c.getters, c.setters):
+                    if tab.get(h.name) is h:
+                        del tab[h.name]
+            for q2 in [q2 for q2, f2 in funcs.items() if f2.parent is h]:
+                funcs.pop(q2, None)
+            log.append(f'{h.short}: new helper absorbed by its callers')
+        prog.absorbed = [h.short for h in absorbed]  # type: ignore[attr-defined]
         prog.reindex()  # type: ignore[attr-defined]
     return sorted(set(log))
+
+
+def _inside(n: ast.AST, new: dict, f: object) -> bool:
+    """References from inside a new helper do not keep another new helper alive unless that helper itself survives;
+    approximated: references located in new helpers are ignored."""
+    return getattr(f, 'qualname', None) in new
 
 
 def renumber(fn: ast.AST) -> None:
